@@ -1,3 +1,232 @@
-import CxVerif.Impl.SimdSha256
+/-
+  Props.C16 (SHA-256 part, DESIGN C16 (ii)) — the SSE4.1 and AVX SHA-256 block functions agree with the portable
+  reference code on every chaining state, every message and every number of consecutive blocks.
+
+  Models: Impl.SimdSha256 (lane model of impl256/sse41.rs and avx.rs; the gather offsets, the pshufb byte-swap masks,
+  the shift amounts of sigma0/sigma1, the register arguments of every `SCHEDULE_ROUND[_INC]!` of the loop and of the
+  tail with its `schedule[k] = …` stores, the loop bound, the `compress_once!(j)` lanes, the batch sizes and the
+  `[feature, module]` table of mod.rs are EXTRACTED from the source on every run) against Impl.Sha2.Impl256
+  (`reference::digest_block_u32` / `reference::digest_block`, = FIPS 180-4 §6.2.2 by Props/C01/Sha2.lean).
+  All statements are for EVERY state and EVERY input, by induction on the number of batches / blocks (no bound).
+
+  How the Rust chooses batches and tails (read off sse41.rs / avx.rs, modelled literally):
+    sse41::digest_block   `while block.len() >= 256 { message_schedule_4ways; compress_4ways; block = &block[256..] }`
+                          then `if block.len() > 0 { reference::digest_block(state, block) }`  (0..3 blocks, scalar)
+    avx::digest_block     `while block.len() >= 512 { message_schedule_8ways; compress_8ways; block = &block[512..] }`
+                          then `sse41::digest_block(state, block)`  (at most one 4-block batch, then 0..3 scalar blocks)
+  Only the message schedule is vectorised (N-way transposed loads, σ0/σ1 as five shifts xor-ed, adds, `+ K` broadcast);
+  the 64 rounds run on the ALU with `kwi = extract_epi32(schedule[i], j)` — there are no vector Σ/Ch/Maj in this code:
+  the model's `round` uses the scalar `e0`/`e1` of reference.rs, as the source does.
+
+  What is NOT a theorem (partial by nature): that a `-C target-feature` build executes these lane operations, that
+  `core::ptr::read` on the (in general unaligned) `*const i32` behaves as a little-endian 4-byte read, and which `cfg`
+  blocks the compiler keeps — observed by the ops `simd.sha256/sha224` through the four harness builds.
+  Helpers: Proofs/SimdSha256Sched.lean, SimdSha256Lanes.lean, SimdSha256Batch.lean.
+-/
+import CxVerif.Proofs.SimdSha256Batch
+import CxVerif.Props.C01.Sha2
 namespace Cx.Props.C16
+open Cx Cx.Impl.Simd Cx.Impl.SimdSha256 Cx.Proofs.SimdSha256
+open Cx.Spec.Sha2 (W8 compress256 schedule256 smallSigma0_256 smallSigma1_256)
+open Cx.Impl.Sha2 (Impl256.digest_block_u32 Impl256.digest_block Impl256.K32)
+
+/-! ### (1) lane algebra -/
+
+/-- every vector operation of the model is the scalar operation on each lane, for every lane count:
+    `_mm_add_epi32`, `_mm_xor_si128`, or, `_mm_srli_epi32`, `_mm_slli_epi32` (counts ≥ 32 give 0), `_mm_set1_epi32` -/
+theorem sha256_lane_ops {n : Nat} (a b : Lanes n) (x : UInt32) (k j : Nat) (h : j < n) :
+    (Lanes.add a b)[j] = a[j] + b[j] ∧ (Lanes.xor a b)[j] = a[j] ^^^ b[j] ∧ (Lanes.or a b)[j] = a[j] ||| b[j] ∧
+    (Lanes.srli a k)[j] = (if k ≥ 32 then 0 else a[j] >>> UInt32.ofNat k) ∧
+    (Lanes.slli a k)[j] = (if k ≥ 32 then 0 else a[j] <<< UInt32.ofNat k) ∧ (Lanes.set1 x : Lanes n)[j] = x :=
+  ⟨getElem_add a b j h, getElem_xor a b j h, getElem_or a b j h, getElem_srli a k j h, getElem_slli a k j h,
+   getElem_set1 x j h⟩
+
+/-- `sigma0` / `sigma1` of both files (five shifts `srli 7, srli 18, srli 3, slli 25, slli 14` resp.
+    `srli 17, srli 10, srli 19, slli 15, slli 13`, xor-ed: "rotate" = two shifts) are FIPS σ0 / σ1 on every lane -/
+theorem sha256_sigma_lanewise (v4 : Lanes 4) (v8 : Lanes 8) :
+    sigma0 (lanesAlg 4) Sse41.cfg v4 = some (v4.map smallSigma0_256) ∧
+    sigma1 (lanesAlg 4) Sse41.cfg v4 = some (v4.map smallSigma1_256) ∧
+    sigma0 (lanesAlg 8) Avx.cfg v8 = some (v8.map smallSigma0_256) ∧
+    sigma1 (lanesAlg 8) Avx.cfg v8 = some (v8.map smallSigma1_256) :=
+  ⟨lanes_sigma0 good_sse41 v4, lanes_sigma1 good_sse41 v4, lanes_sigma0 good_avx v8, lanes_sigma1 good_avx v8⟩
+
+/-- the byte-swap shuffles: `_mm_shuffle_epi8(w, bswap_mask)` and `_mm256_shuffle_epi8(w, bswap_mask)` (selectors
+    16…31 of the upper 128-bit half act inside that half) swap the four bytes of every lane; and the little-endian
+    `read(p as *const i32)` followed by that swap is the big-endian word at `p` -/
+theorem sha256_bswap_shuffles (v4 : Lanes 4) (v8 : Lanes 8) (bs : Bytes) (h : 4 ≤ bs.length) :
+    Lanes.shuffle_epi8 v4 Sse41.cfg.bswapMask = v4.map bswap32 ∧
+    Lanes.shuffle_epi8 v8 Avx.cfg.bswapMask = v8.map bswap32 ∧
+    bswap32 (ofBytes32 (bs.take 4)) = beU32 bs :=
+  ⟨shuffle_bswap4 v4, shuffle_bswap8 v8, bswap32_read bs h⟩
+
+example : 4 ≤ ([1, 2, 3, 4, 5] : Bytes).length := by decide
+
+/-- the transposing loads (16 × `gather` + shuffle) of a slice holding at least one batch: lane `j` of register
+    `wK` is big-endian word `K` of block `j` (`laneW … K` for `K < 16`); no read outside the slice -/
+theorem sse41_loads_transpose (message : Bytes) (hm : 256 ≤ message.length) :
+    loadRegs Sse41.cfg message = some ((List.range 16).map (laneW Sse41.cfg message)) ∧
+    ∀ (k : Nat), k < 16 → ∀ (j : Nat) (hj : j < 4),
+      (wordsBE32 (blockAt message j))[k]? = some ((laneW Sse41.cfg message k)[j]'hj) := by
+  refine ⟨loadRegs_eq good_sse41 message (by exact hm), ?_⟩
+  intro k hk j hj
+  have hb : (blockAt message j).length = 64 := blockAt_length (by omega)
+  have hw : k < (wordsBE32 (blockAt message j)).length := by rw [Cx.Proofs.Sha2Compress.wordsBE32_length, hb]; omega
+  simp [laneW, Wf_lt _ hk, List.getD_eq_getElem?_getD, List.getElem?_eq_getElem hw]
+
+theorem avx_loads_transpose (message : Bytes) (hm : 512 ≤ message.length) :
+    loadRegs Avx.cfg message = some ((List.range 16).map (laneW Avx.cfg message)) ∧
+    ∀ (k : Nat), k < 16 → ∀ (j : Nat) (hj : j < 8),
+      (wordsBE32 (blockAt message j))[k]? = some ((laneW Avx.cfg message k)[j]'hj) := by
+  refine ⟨loadRegs_eq good_avx message (by exact hm), ?_⟩
+  intro k hk j hj
+  have hb : (blockAt message j).length = 64 := blockAt_length (by omega)
+  have hw : k < (wordsBE32 (blockAt message j)).length := by rw [Cx.Proofs.Sha2Compress.wordsBE32_length, hb]; omega
+  simp [laneW, Wf_lt _ hk, List.getD_eq_getElem?_getD, List.getElem?_eq_getElem hw]
+
+example : 256 ≤ (List.replicate 300 (7 : UInt8)).length ∧ 512 ≤ (List.replicate 600 (7 : UInt8)).length := by
+  rw [List.length_replicate, List.length_replicate]; omega
+
+/-- per-block view: the `SCHEDULE_ROUND!` program of either file (register rotation over `w0 … w15`, `while i < 32`,
+    sixteen tail rounds with explicit stores) run on SINGLE WORDS is the FIPS message schedule plus K:
+    `schedule[k] = W_k + K32[k]` for all 64 entries, for every sixteen block words; no `schedule[$i]` / `K32[$i]` panic -/
+theorem sha256_schedule_on_words (m : List UInt32) (hm : m.length = 16) :
+    (∃ sch, scheduleFromRegs wordRegAlg Sse41.cfg m = some sch ∧ sch.length = 64 ∧
+      ∀ (k : Nat) (kk w : UInt32), Impl256.K32[k]? = some kk → (schedule256 m)[k]? = some w → sch[k]? = some (w + kk)) ∧
+    (∃ sch, scheduleFromRegs wordRegAlg Avx.cfg m = some sch ∧ sch.length = 64 ∧
+      ∀ (k : Nat) (kk w : UInt32), Impl256.K32[k]? = some kk → (schedule256 m)[k]? = some w → sch[k]? = some (w + kk)) :=
+  ⟨word_schedule good_sse41 m hm, word_schedule good_avx m hm⟩
+
+example : ((List.range 16).map UInt32.ofNat).length = 16 := by decide
+
+/-- **`message_schedule_4ways`** on a slice of at least 256 bytes = FOUR independent scalar schedules, K added per
+    lane: it does not panic, fills 64 vectors, and lane `j` of `schedule[k]` is `W_k(block j) + K32[k]` -/
+theorem sse41_schedule_is_4_scalar_schedules (message : Bytes) (hm : 256 ≤ message.length) :
+    ∃ sch, message_schedule Sse41.cfg message = some sch ∧ sch.length = 64 ∧
+      ∀ (k : Nat) (kk w : UInt32) (j : Nat) (hj : j < 4), Impl256.K32[k]? = some kk →
+        (schedule256 (wordsBE32 (blockAt message j)))[k]? = some w → ∃ v : Lanes 4, sch[k]? = some v ∧ v[j] = w + kk :=
+  message_schedule_lanes good_sse41 message (by exact hm)
+
+/-- **`message_schedule_8ways`** on a slice of at least 512 bytes = EIGHT independent scalar schedules -/
+theorem avx_schedule_is_8_scalar_schedules (message : Bytes) (hm : 512 ≤ message.length) :
+    ∃ sch, message_schedule Avx.cfg message = some sch ∧ sch.length = 64 ∧
+      ∀ (k : Nat) (kk w : UInt32) (j : Nat) (hj : j < 8), Impl256.K32[k]? = some kk →
+        (schedule256 (wordsBE32 (blockAt message j)))[k]? = some w → ∃ v : Lanes 8, sch[k]? = some v ∧ v[j] = w + kk :=
+  message_schedule_lanes good_avx message (by exact hm)
+
+/-! ### (2) one batch -/
+
+/-- **one sse41 batch**: `message_schedule_4ways(&mut schedule, block); compress_4ways(state, &schedule)` on a slice
+    of ≥ 256 bytes = the reference single-block function folded over its first four blocks, in order (which never
+    panics there and is the fold of the FIPS compression) -/
+theorem sse41_one_batch (state : W8 UInt32) (message : Bytes) (hm : 256 ≤ message.length) :
+    ∃ sch, message_schedule Sse41.cfg message = some sch ∧
+      compress_nways sch state Sse41.cfg.compressLanes = (takeBlocks 64 4 message).foldlM Impl256.digest_block_u32 state ∧
+      compress_nways sch state Sse41.cfg.compressLanes = some ((takeBlocks 64 4 message).foldl compress256 state) := by
+  obtain ⟨sch, h1, h2⟩ := batch_eq good_sse41 message (by exact hm) state
+  refine ⟨sch, h1, ?_, h2⟩
+  rw [h2, foldlM_digest_block_u32 _ _ (Cx.Proofs.FB.takeBlocks_all_len 4 message (by omega))]
+  rfl
+
+/-- **one avx batch**: eight blocks -/
+theorem avx_one_batch (state : W8 UInt32) (message : Bytes) (hm : 512 ≤ message.length) :
+    ∃ sch, message_schedule Avx.cfg message = some sch ∧
+      compress_nways sch state Avx.cfg.compressLanes = (takeBlocks 64 8 message).foldlM Impl256.digest_block_u32 state ∧
+      compress_nways sch state Avx.cfg.compressLanes = some ((takeBlocks 64 8 message).foldl compress256 state) := by
+  obtain ⟨sch, h1, h2⟩ := batch_eq good_avx message (by exact hm) state
+  refine ⟨sch, h1, ?_, h2⟩
+  rw [h2, foldlM_digest_block_u32 _ _ (Cx.Proofs.FB.takeBlocks_all_len 8 message (by omega))]
+  rfl
+
+/-! ### (3) the driver loops: any number of blocks -/
+
+/-- the batch loops take as many full batches as fit: after `while block.len() >= 256` (resp. `>= 512`) the state has
+    absorbed the first `4·⌊len/256⌋` (resp. `8·⌊len/512⌋`) blocks and the remaining slice (< one batch) starts right
+    behind them — for every slice, of any length -/
+theorem sha256_batch_loops (state : W8 UInt32) (block : Bytes) :
+    batch_loop Sse41.cfg block.length state block
+      = some ((takeBlocks 64 (4 * (block.length / 256)) block).foldl compress256 state, block.drop (256 * (block.length / 256))) ∧
+    batch_loop Avx.cfg block.length state block
+      = some ((takeBlocks 64 (8 * (block.length / 512)) block).foldl compress256 state, block.drop (512 * (block.length / 512))) :=
+  ⟨batch_loop_full good_sse41 state block, batch_loop_full good_avx state block⟩
+
+/-- **sse41::digest_block on ANY number of consecutive 64-byte blocks** (n = 0, n < 4, any n: ⌊n/4⌋ four-way batches,
+    then 0..3 blocks through `reference::digest_block`) = the reference single-block function folded over all blocks -/
+theorem sse41_digest_block_eq_fold (state : W8 UInt32) (blocks : List Bytes) (h : ∀ b ∈ blocks, b.length = 64) :
+    Sse41.digest_block state blocks.flatten = blocks.foldlM Impl256.digest_block_u32 state ∧
+    Sse41.digest_block state blocks.flatten = some (blocks.foldl compress256 state) := by
+  obtain ⟨hf, hl⟩ := fullBlocks_flatten blocks h
+  have : Sse41.digest_block state blocks.flatten = some (blocks.foldl compress256 state) := by
+    rw [sse41_eq_reference, reference_digest_block_eq _ _ hl, hf]
+  exact ⟨by rw [this, foldlM_digest_block_u32 _ _ h], this⟩
+
+/-- **avx::digest_block on ANY number of consecutive 64-byte blocks** (⌊n/8⌋ eight-way batches, then
+    `sse41::digest_block` on the remaining 0..7 blocks: at most one four-way batch and 0..3 scalar blocks) -/
+theorem avx_digest_block_eq_fold (state : W8 UInt32) (blocks : List Bytes) (h : ∀ b ∈ blocks, b.length = 64) :
+    Avx.digest_block state blocks.flatten = blocks.foldlM Impl256.digest_block_u32 state ∧
+    Avx.digest_block state blocks.flatten = some (blocks.foldl compress256 state) := by
+  obtain ⟨hf, hl⟩ := fullBlocks_flatten blocks h
+  have : Avx.digest_block state blocks.flatten = some (blocks.foldl compress256 state) := by
+    rw [avx_eq_reference, reference_digest_block_eq _ _ hl, hf]
+  exact ⟨by rw [this, foldlM_digest_block_u32 _ _ h], this⟩
+
+/-- the hypothesis is met by 0, 3 (below a batch), 13 (three sse41 batches + 1; one avx batch + one sse41 batch + 1) blocks -/
+example : (∀ b ∈ ([] : List Bytes), b.length = 64) ∧ (∀ b ∈ List.replicate 3 (List.replicate 64 (1 : UInt8)), b.length = 64) ∧
+    (∀ b ∈ List.replicate 13 (List.replicate 64 (1 : UInt8)), b.length = 64) := by
+  refine ⟨by simp, ?_, ?_⟩ <;> (intro b hb; rw [List.eq_of_mem_replicate hb]; simp)
+
+/-- stronger, on arbitrary byte strings: both vectorised drivers ARE `reference::digest_block`, including the
+    panic (`none`) when the slice is not a whole number of blocks -/
+theorem sha256_simd_drivers_eq_reference (state : W8 UInt32) (block : Bytes) :
+    Sse41.digest_block state block = Impl256.digest_block state block ∧
+    Avx.digest_block state block = Impl256.digest_block state block :=
+  ⟨sse41_eq_reference state block, avx_eq_reference state block⟩
+
+/-! ### (4) dispatch (mod.rs) -/
+
+/-- TABLE: the extracted `[feature, module]` blocks of `impl256::digest_block`: avx first, then sse4.1, else reference -/
+theorem sha256_dispatch_table (ft : Features) :
+    selectPath ft Extracted.Simd.DISPATCH_SHA256 = (if ft.avx then 2 else if ft.sse41 then 1 else 0) :=
+  dispatch_table ft
+
+/-- **all paths agree**: whatever the `cfg`-selected implementation (the table selects one of reference = 0,
+    sse41 = 1, avx = 2 — never the refused code), `impl256::digest_block` is `reference::digest_block` on every state
+    and every byte string; hence any two feature sets compute the same function, and on `n` whole blocks it is the fold
+    of the single-block compression -/
+theorem sha256_all_paths_agree (ft ft' : Features) (state : W8 UInt32) (block : Bytes) :
+    selectPath ft Extracted.Simd.DISPATCH_SHA256 ∈ [0, 1, 2] ∧
+    digest_block ft state block = Impl256.digest_block state block ∧
+    digest_block ft state block = digest_block ft' state block ∧
+    (block.length % 64 = 0 → digest_block ft state block = some ((fullBlocks 64 block).foldl compress256 state)) := by
+  refine ⟨?_, digest_block_eq_reference ft state block, ?_, ?_⟩
+  · rw [dispatch_table]; cases ft.avx <;> cases ft.sse41 <;> simp
+  · rw [digest_block_eq_reference, digest_block_eq_reference]
+  · intro h; rw [digest_block_eq_reference, reference_digest_block_eq _ _ h]
+
+example : (List.replicate 320 (9 : UInt8)).length % 64 = 0 := by rw [List.length_replicate]
+
+/-! ### composite: digests do not depend on the selected path -/
+
+/-- `Engine::blocks` over the dispatched block function is the portable `Engine::blocks` (as functions) -/
+theorem sha256_engine_blocks (ft : Features) : Engine.blocks ft = Impl.Sha2.Eng256.Engine.blocks := blocks_eq ft
+
+/-- **whole histories** (`Sha256::new()`, any sequence of `update_mut`, `finalize()` — what op `simd.sha256` runs):
+    the result (digest or panic) does not depend on the feature set; no hypothesis -/
+theorem sha256_features_irrelevant (ft ft' : Features) (pieces : List Bytes) :
+    sha256_with ft pieces = sha256_with ft' pieces ∧ sha224_with ft pieces = sha224_with ft' pieces := by
+  simp only [sha256_with, sha224_with, blocks_eq, and_self]
+
+/-- **every build computes FIPS 180-4**: for every feature set, every split of the message into `update` pieces and
+    every message in the standard's length domain, the digests are SHA-256 / SHA-224 of the concatenation -/
+theorem sha256_simd_eq_spec (ft : Features) (pieces : List Bytes) (h : pieces.flatten.length < 2 ^ 61) :
+    sha256_with ft pieces = some (Spec.Sha2.sha256 pieces.flatten) ∧
+    sha224_with ft pieces = some (Spec.Sha2.sha224 pieces.flatten) := by
+  constructor
+  · rw [← Cx.Proofs.Sha2Engine.specDigest256_sha256]
+    exact hash_with_eq_spec ft _ _ Cx.Proofs.Sha2Engine.outOK_sha256 pieces h
+  · rw [← Cx.Proofs.Sha2Engine.specDigest256_sha224]
+    exact hash_with_eq_spec ft _ _ Cx.Proofs.Sha2Engine.outOK_sha224 pieces h
+
+example : ([List.replicate 700 (7 : UInt8), [], List.replicate 65 (1 : UInt8)] : List Bytes).flatten.length < 2 ^ 61 := by
+  simp only [List.flatten_cons, List.flatten_nil, List.length_append, List.length_replicate, List.length_nil]; omega
+
 end Cx.Props.C16
